@@ -133,6 +133,32 @@ struct Exclusive {
     int_half: u8,
 }
 
+/// object schemas whose `required` names keys that have no entry of their own under `properties`
+/// (covered by additionalProperties only) -- legal JSON Schema that derive never produces
+fn labels_schema(g: &mut schemars::gen::SchemaGenerator) -> schemars::schema::Schema {
+    use schemars::schema::*;
+    let string = g.subschema_for::<String>();
+    let mut ov = ObjectValidation::default();
+    ov.properties.insert("kind".to_string(), string.clone());
+    ov.required.insert("kind".to_string());
+    ov.required.insert("name".to_string());
+    ov.additional_properties = Some(Box::new(string));
+    SchemaObject { instance_type: Some(InstanceType::Object.into()), object: Some(Box::new(ov)), ..Default::default() }.into()
+}
+fn only_required_schema(_: &mut schemars::gen::SchemaGenerator) -> schemars::schema::Schema {
+    use schemars::schema::*;
+    let mut ov = ObjectValidation::default();
+    ov.required.insert("id".to_string());
+    SchemaObject { instance_type: Some(InstanceType::Object.into()), object: Some(Box::new(ov)), ..Default::default() }.into()
+}
+#[derive(Deserialize, Serialize, JsonSchema)]
+struct RequiredBeyondProperties {
+    #[schemars(schema_with = "labels_schema")]
+    labels: std::collections::BTreeMap<String, String>,
+    #[schemars(schema_with = "only_required_schema")]
+    anything_with_id: serde_json::Map<String, serde_json::Value>,
+}
+
 /// limits and bounds that are exactly zero, or negative
 #[derive(Deserialize, Serialize, JsonSchema)]
 struct Zeros {
@@ -412,6 +438,7 @@ fn main() {
     t!(Annotated);
     t!(Zeros);
     t!(Exclusive);
+    t!(RequiredBeyondProperties);
     t!([u8; 0]);
     t!([String; 1]);
     t!(UnitEnum);
